@@ -383,7 +383,7 @@ pub fn run(a: &Args, shard: u64, shards: u64) -> Report {
 
 fn run_inner(a: &Args, shard: u64, shards: u64) -> Report {
     let mut rep = Report::new();
-    let depth = if a.miri { 2 } else if a.thorough { 5 } else { 3 };
+    let depth = if a.miri { 2 } else if a.thorough { 5 } else { 4 };
     let n = ALPHABET.len() as u64;
     let mut case = 0u64;
     for role in crate::c15::ROLES {
